@@ -8,10 +8,33 @@
 usage: gen.py <repo> <loader.json> <out dir for SchemaTables.v / SchemaTablesOk.v> <out probes.json>
 """
 import json
+import re
 import sys
 
 
 ANY = "<any>"   # pseudo option: "an option that is not listed" (present on a side iff that side accepts such options)
+
+
+# sample universe for value classes, and the two grammars the translator knows
+DUR_SAMPLES = ["1h", "30m", "10s", "500ms", "100us", "5ns", "1h30m", "1.5s", "10", "abc"]
+GO_DURATION = re.compile(r"^[+-]?(0|((\d+(\.\d*)?|\.\d+)(ns|us|µs|ms|s|m|h))+)$")
+SINGLE_UNIT = "^[0-9]+(ns|us|ms|s|m|h)$"
+
+
+def schema_class(pattern):
+    name = "duration_single_unit" if pattern == SINGLE_UNIT else "pattern:" + pattern
+    try:
+        rx = re.compile(pattern)
+    except re.error:
+        return {"name": name, "acc": [], "rej": []}
+    return {"name": name, "acc": [v for v in DUR_SAMPLES if rx.search(v)], "rej": [v for v in DUR_SAMPLES if not rx.search(v)]}
+
+
+def loader_class(go_type):
+    if go_type.lstrip("*") == "time.Duration":
+        return {"name": "go_duration", "acc": [v for v in DUR_SAMPLES if GO_DURATION.match(v)],
+                "rej": [v for v in DUR_SAMPLES if not GO_DURATION.match(v)]}
+    return None
 
 
 def coq_str(s):
@@ -97,11 +120,12 @@ def schema_table(repo):
                     sub_elem = n is not None
                 if n is not None:
                     sub = opts_of(n, depth + 1)
-            opts.append({"name": on, "required": r, "enum": enum, "range": rng, "sub": sub, "sub_elem": sub_elem,
+            cls = schema_class(o["pattern"]) if enum is None and rng is None and isinstance(o.get("pattern"), str) else None
+            opts.append({"name": on, "required": r, "enum": enum, "range": rng, "cls": cls, "sub": sub, "sub_elem": sub_elem,
                          "int": o.get("type") in ("integer", "number")})
         if cfg.get("additionalProperties", True) is not False:
             # an open object: options not listed are accepted too
-            opts.append({"name": ANY, "required": "no", "enum": None, "range": None, "sub": None, "sub_elem": False,
+            opts.append({"name": ANY, "required": "no", "enum": None, "range": None, "cls": None, "sub": None, "sub_elem": False,
                          "int": False})
         return sorted(opts, key=lambda o: o["name"])
 
@@ -130,6 +154,7 @@ def loader_table(path):
     for m in L:
         def conv(os_):
             return sorted([{"name": o["name"], "required": o["required"], "enum": o.get("oneof"), "range": o.get("range"),
+                            "cls": loader_class(o["go_type"]) if not o.get("oneof") and not o.get("range") else None,
                             "sub": conv(o["sub"]) if o.get("sub") else None, "sub_elem": bool(o.get("sub_elem")),
                             "int": o["go_type"].lstrip("*") in ("int", "int64", "uint", "uint64", "int32", "uint32", "float64")}
                            for o in os_], key=lambda o: o["name"])
@@ -152,7 +177,7 @@ def flatten_pair(sopts, lopts, prefix=""):
         for side, o, acc in (("s", a, fs), ("l", b, fl)):
             if o is not None:
                 acc.append({"name": prefix + n, "required": o["required"], "enum": o["enum"], "range": o.get("range"),
-                            "int": o.get("int", False)})
+                            "cls": o.get("cls"), "int": o.get("int", False)})
         if a and b and a.get("sub") and b.get("sub") and bool(a.get("sub_elem")) == bool(b.get("sub_elem")):
             sep = "[]." if a.get("sub_elem") else "."
             s2, l2 = flatten_pair(a["sub"], b["sub"], prefix + n + sep)
@@ -182,6 +207,9 @@ def coq_table(name, tbl):
                 c = "(CEnum [" + "; ".join(coq_str(v) for v in o["enum"]) + "])"
             elif o.get("range") and o["range"][0] is not None and o["range"][1] is not None:
                 c = "(CRange (%d)%%Z (%d)%%Z)" % (int(o["range"][0]), int(o["range"][1]))
+            elif o.get("cls"):
+                c = "(CClass %s [%s] [%s])" % (coq_str(o["cls"]["name"]), "; ".join(coq_str(v) for v in o["cls"]["acc"]),
+                                               "; ".join(coq_str(v) for v in o["cls"]["rej"]))
             else:
                 c = "CAny"
             r = {"yes": "RYes", "no": "RNo", "cond": "RCond"}[o["required"]]
@@ -296,6 +324,11 @@ def probes(stbl, ltbl):
                 rg = o.get("range")
                 if rg and rg[0] is not None and rg[1] is not None:
                     enums.append([str(int(rg[0]) - 1), str(int(rg[0])), str(int(rg[1])), str(int(rg[1]) + 1)])
+            if any(o.get("cls") for o in os_.values()):
+                for v in DUR_SAMPLES:
+                    cfg = with_value(base, n, v)
+                    if cfg is not None:
+                        add("class-value", [[n, v]], cfg, known)
             if enums:
                 vals = []
                 for e in enums:
